@@ -121,6 +121,7 @@ Section Lda.
 
   (* returns (solution columns, new database, the call that reached the inner solver if any) *)
   Definition do_solve (A : mat F) (cplxA : bool) (m : list bool) (db : list pair) (adj : bool)
+             (solve_fn : list (vec F) -> option (list (vec F)) -> list (vec F))
              (cplx_rhs : bool) (isvec : bool) (RHS : list (vec F)) (X0 : option (list (vec F)))
     : list (vec F) * list pair * option call :=
     let dt := cplxA || cplx_rhs in
@@ -133,7 +134,7 @@ Section Lda.
     if existsb (fun b => b) did then
       let X0l := match X0 with None => None | Some X => Some (x0_loc m db did isvec X) end in
       let R := pick did RL in
-      let XN := inner A adj R X0l in
+      let XN := solve_fn R X0l in
       (merge m did SOL XN, fold_left (add_db A m dt) XN db, Some {| c_adj := adj; c_rhs := R; c_x0 := X0l |})
     else (SOL, db, None).
 
@@ -162,12 +163,12 @@ Section Lda.
         let cm := conj_mode sym herm trans in
         let RHS' := if cm then map vconj RHS else RHS in
         if am then
-          let '(X, db, c) := do_solve (mH A) cplxA (s_mask st) (s_dbH st) true cplx_rhs isvec RHS' X0 in
+          let '(X, db, c) := do_solve (mH A) cplxA (s_mask st) (s_dbH st) true (inner A true) cplx_rhs isvec RHS' X0 in
           ({| s_A := s_A st; s_sym := s_sym st; s_herm := s_herm st; s_mask := s_mask st;
               s_dbN := s_dbN st; s_dbH := db |},
            inr {| r_cplx := cplxA || cplx_rhs; r_x := if cm then map vconj X else X; r_call := c |})
         else
-          let '(X, db, c) := do_solve A cplxA (s_mask st) (s_dbN st) false cplx_rhs isvec RHS' X0 in
+          let '(X, db, c) := do_solve A cplxA (s_mask st) (s_dbN st) false (inner A false) cplx_rhs isvec RHS' X0 in
           ({| s_A := s_A st; s_sym := s_sym st; s_herm := s_herm st; s_mask := s_mask st;
               s_dbN := db; s_dbH := s_dbH st |},
            inr {| r_cplx := cplxA || cplx_rhs; r_x := if cm then map vconj X else X; r_call := c |})
